@@ -435,6 +435,12 @@ func runC18(r *mc.Run) {
 	}
 	// a register of the (re-signed) quote differs from the replay while ANOTHER 48-byte field of the body holds the
 	// value the replay gives for it (lg>>8 = 200 + 7*register + field): only the register itself is compared
+	// the message is changed AFTER parsing: register k of the parsed message is replaced (a fresh slice) by the value
+	// the log replays to, while the signed bytes hold another value. The signature does not cover what is presented
+	// (lg>>8 = 300 + k)
+	for k := 0; k < 4; k++ {
+		cases = append(cases, c18case{0, 0, k*384 + 5, (300 + k) << 8}, c18case{0, 0, k*384 + 5, (300+k)<<8 | 1})
+	}
 	for reg := 0; reg < 4; reg++ {
 		for f := 0; f < 7; f++ {
 			cases = append(cases, c18case{0, 0, reg * 384, (200 + 7*reg + f) << 8}, c18case{0, 0, reg*384 + 383, (200 + 7*reg + f) << 8})
@@ -530,7 +536,9 @@ func runC18(r *mc.Run) {
 			id += ",header-svns=pce0x0201/qe0x0100"
 		}
 		c18Fields := []string{"mr_seam", "mrsigner_seam", "mr_td", "mr_config_id", "mr_owner", "mr_owner_config", "next-register"}
-		if fb := c.lg >> 8; fb >= 200 {
+		if fb := c.lg >> 8; fb >= 300 {
+			id += fmt.Sprintf(",message-rtmr%d-replaced-by-replay-value-after-parsing", fb-300)
+		} else if fb >= 200 {
 			id += fmt.Sprintf(",replay-value-of-rtmr%d-in-%s", (fb-200)/7, c18Fields[(fb-200)%7])
 		} else if fb > 64 {
 			id += fmt.Sprintf(",xfam|=bit%d", fb-65)
@@ -554,7 +562,9 @@ func runC18(r *mc.Run) {
 		if c.lg&8 != 0 {
 			copy(p.Header[8:12], []byte{1, 2, 0, 1})
 		}
-		if fb := c.lg >> 8; fb >= 200 {
+		if fb := c.lg >> 8; fb >= 300 {
+			// nothing to do to the signed bytes beyond the bit flip below
+		} else if fb >= 200 {
 			rg, f := (fb-200)/7, (fb-200)%7
 			off := []int{16, 64, 136, 184, 232, 280, 328 + 48*((rg+1)%4)}[f]
 			if c.lg&1 == 1 && rg == 3 {
@@ -614,6 +624,14 @@ func runC18(r *mc.Run) {
 			r.HarnessError("C18 %s: generated quote does not parse: %v", id, perr)
 			return
 		}
+		presentedDiffers := false
+		if fb := c.lg >> 8; fb >= 300 && fb < 304 && c.bit >= 0 && !special {
+			k := fb - 300
+			orig := append([]byte(nil), p.Body[328+48*k:376+48*k]...)
+			orig[(c.bit%384)/8] ^= 1 << uint(c.bit%8) // the value before the (signed) bit flip: what the log replays to
+			q.TdQuoteBody.Rtmrs[k] = orig
+			presentedDiffers = true
+		}
 		var st *state.FirmwareLogState
 		var err error
 		func() {
@@ -621,7 +639,7 @@ func runC18(r *mc.Run) {
 			st, err = rtmr.ParseCcelWithTdQuote(logs[c.lg&1], tableBytes, q, o)
 		}()
 		// reference gates
-		gateV := c.v == 0 || c.v >= nControlsFrom
+		gateV := (c.v == 0 || c.v >= nControlsFrom) && !presentedDiffers
 		pol := polOf(o.Validation)
 		rp, _ := ref.ParseQuote(raw)
 		gateP := pol.Judge(rp) == ref.MustAccept
